@@ -17,6 +17,7 @@ from smpl_extract.structural import Traversable
 from smpl_extract.util.constructs import ChildInfo
 from smpl_extract.util.constructs import ElementAdapter
 from smpl_extract.util.constructs import EnumWrapper
+from smpl_extract.util.stream import SectorReadError
 
 from .akai_string import AkaiPaddedString
 from .data_types import VolumeType
@@ -56,7 +57,9 @@ class Volume(Traversable):
         for file_entry in self.file_entries:
             try:
                 file = file_entry.file
-            except (InvalidFileEntry, ConstructError) as e:
+            except (InvalidFileEntry, ConstructError, SectorReadError) as e:
+                # SectorReadError: the file's sectors lie (partly) beyond
+                # the end of a truncated image
                 file = None
 
             if file is not None:
